@@ -679,9 +679,24 @@ pub fn compile_cmd(v: &Value) -> Value {
         "hybrid" => BdAdf::from_parser(&parser).hybrid_step(),
         "hybrid_noopt" => BdAdf::from_parser(&parser).hybrid_step_opt(false),
         "hybrid_rew" => BdAdf::from_parser_with_stm_rewrite(&parser).hybrid_step(),
+        "hybrid_after" => {
+            // semantics first, on the same biodivine-based object, then the pre-grounded bridge (the enumerating procedures only on small instances)
+            let bd = BdAdf::from_parser(&parser);
+            if names_of_parser(&parser) <= 8 {
+                bd.stable_bdd_representation();
+                bd.stable().count();
+                bd.complete().count();
+            }
+            bd.grounded();
+            bd.hybrid_step()
+        }
         m => return json!({"error": format!("mode {}", m)}),
     };
     json!({"names": names_of(&adf), "nodes": dump_nodes(&adf.bdd), "ac": adf.ac.iter().map(|t| t.value()).collect::<Vec<_>>()})
+}
+
+fn names_of_parser(parser: &AdfParser) -> usize {
+    parser.var_container().names().read().unwrap().len()
 }
 
 /// a semantics procedure on a text, on the chosen back-end, as the CLI wires them
@@ -937,6 +952,15 @@ pub fn bridge_store(v: &Value) -> Value {
         return json!({"error": "parse"});
     }
     let bio = BdAdf::from_parser(&parser);
+    for h in v["history"].as_array().cloned().unwrap_or_default() {
+        match h.as_str().unwrap_or("") {
+            "grounded" => { bio.grounded(); }
+            "complete" => { bio.complete().count(); }
+            "stable" => { bio.stable().count(); }
+            "stable_rew" => { bio.stable_bdd_representation(); }
+            other => panic!("history step {}", other),
+        }
+    }
     let adf = if v["pregrounded"].as_bool().unwrap_or(false) { bio.hybrid_step() } else { bio.hybrid_step_opt(false) };
     let roots: Vec<usize> = adf.ac.iter().map(|t| t.value()).collect();
     let tables: Vec<Value> = adf.ac.iter().map(|t| table(&adf.bdd, *t, n)).collect();
